@@ -127,14 +127,16 @@ theorem innermost_argument_wins (g : Env) (inner : Level) (outer : List Level)
 
 /-! ## 3. how a reference value is written (`ParentTranslator.ref_value`) -/
 
-/-- **A source literal is written for exactly the values whose type IS a literal type.**
-Instances of strict subclasses (whatever their bases) never take the literal branch. -/
+/-- **A source literal is written for exactly the values whose type IS a literal type** - and,
+for a float, that are finite.  Instances of strict subclasses (whatever their bases) never take the
+literal branch. -/
 theorem literal_iff_exact_type (v : PyVal) :
     refValue Generated.exportLiteralTest Generated.exportLiteralTypes v Generated.exportRefValueOrder = .literal
-      ↔ (v.iface = false ∧ Generated.exportLiteralTypes.contains v.ty = true) := by
+      ↔ (v.iface = false ∧ Generated.exportLiteralTypes.contains v.ty = true ∧
+          ¬ (v.ty = "float" ∧ v.finite = false)) := by
   rw [refValue_generated]
   cases v.iface <;> cases v.valid <;> cases Generated.exportLiteralTypes.contains v.ty <;>
-    cases v.sysmod <;> cases v.iospec <;> simp
+    cases v.sysmod <;> cases v.iospec <;> cases v.finite <;> by_cases hf : v.ty = "float" <;> simp [hf]
 
 /-- an instance of a subclass of a literal type (an enum member, a numpy scalar, a user-defined
 `float`) that is neither a modelx object, a module nor IO data is pickled -/
@@ -143,35 +145,72 @@ theorem subclass_instance_is_pickled (v : PyVal)
     (ht : Generated.exportLiteralTypes.contains v.ty = false) :
     refValue Generated.exportLiteralTest Generated.exportLiteralTypes v Generated.exportRefValueOrder = .pickle := by
   rw [refValue_generated]
-  simp only [hi, hm, ho, ht, Bool.false_eq_true, ↓reduceIte]
+  simp only [hi, hm, ho, ht, Bool.false_eq_true, Bool.false_and, ↓reduceIte]
 
-/-- **The imported package binds a value of the same exact type and payload (partial).**  For
-every value that is not an invalidated modelx object - unless it is a value of a literal type
-whose `repr` is not a literal (the floats nan, inf, -inf). -/
+/-- `nan`, `inf` and `-inf` (whose `repr` is a name, not a literal) are pickled -/
+theorem nonfinite_float_is_pickled (v : PyVal)
+    (hi : v.iface = false) (hm : v.sysmod = false) (ho : v.iospec = false)
+    (ht : v.ty = "float") (hf : v.finite = false) :
+    refValue Generated.exportLiteralTest Generated.exportLiteralTypes v Generated.exportRefValueOrder = .pickle := by
+  rw [refValue_generated]
+  simp [hi, hm, ho, ht, hf]
+
+/-- **The imported package binds a value of the same exact type and payload.**  For every value
+that is not an invalidated modelx object, given what `ReprModel` assumes of CPython's `repr` of the
+five exact literal types.  (Full statement since the repair 3bae90c; before it the hypothesis
+`¬ LiteralReprNotExpr` was needed, see `exact_test_fails_on_nan` below.) -/
+theorem ref_value_faithful (v : PyVal) (hv : v.iface = true → v.valid = true)
+    (hr : ReprModel Generated.exportLiteralTypes v) :
+    readBack Generated.exportLiteralTypes
+      (refValue Generated.exportLiteralTest Generated.exportLiteralTypes v Generated.exportRefValueOrder) v
+      = some (v.ty, v.payload) := by
+  rw [refValue_generated]
+  unfold ReprModel at hr
+  cases hi : v.iface
+  · cases hl : Generated.exportLiteralTypes.contains v.ty
+    · cases v.sysmod <;> cases v.iospec <;> simp [readBack]
+    · have hr' := hr hl
+      cases hfin : (v.ty == "float" && !v.finite)
+      · simp only [hfin] at hr'
+        have hm : v.ty ∈ Generated.exportLiteralTypes := by simpa using hl
+        simp [readBack, hm, hr']
+      · cases v.sysmod <;> cases v.iospec <;> simp [readBack]
+  · simp [hv hi, readBack]
+
+/-- the hypothesis-free form for the values whose `repr` evaluates -/
 theorem ref_value_faithful_partial (v : PyVal) (hv : v.iface = true → v.valid = true)
-    (h : ¬ LiteralReprNotExpr Generated.exportLiteralTypes v) :
+    (h : ¬ LiteralReprNotExpr Generated.exportLiteralTypes v)
+    (hfin : v.ty = "float" → v.finite = true) :
     readBack Generated.exportLiteralTypes
       (refValue Generated.exportLiteralTest Generated.exportLiteralTypes v Generated.exportRefValueOrder) v
       = some (v.ty, v.payload) := by
   rw [refValue_generated]
   unfold LiteralReprNotExpr at h
+  have hff : (v.ty == "float" && !v.finite) = false := by
+    by_cases hf : v.ty = "float"
+    · simp [hf, hfin hf]
+    · simp [hf]
   cases hi : v.iface
   · cases hl : Generated.exportLiteralTypes.contains v.ty
     · cases v.sysmod <;> cases v.iospec <;> simp [readBack]
     · cases hr : v.reprEvaluates
       · exact absurd ⟨hl, hr⟩ h
-      · simp only [Bool.false_eq_true, ↓reduceIte, readBack, hl, hr]
+      · have hm : v.ty ∈ Generated.exportLiteralTypes := by simpa using hl
+        simp only [hl, hff, Bool.not_false, Bool.and_true, ↓reduceIte, Bool.false_eq_true]
+        simp [readBack, hm, hr]
   · simp [hv hi, readBack]
 
-/-- The full statement is false: `float('nan')` is of a literal type, its `repr` is the name
-`nan`, and the generated module does not import (known finding C15-nonfinite-float-ref). -/
-theorem ref_value_full_statement_fails :
-    ¬ ∀ (v : PyVal), (v.iface = true → v.valid = true) →
+/-- With the test of the code before 3bae90c (`"exact"`: every float is a literal) the statement is
+false: `float('nan')` is written as the name `nan`, and the generated module does not import
+(finding C15-nonfinite-float-ref, repaired; the witness stays in the corpus). -/
+theorem exact_test_fails_on_nan :
+    ¬ ∀ (v : PyVal), (v.iface = true → v.valid = true) → ReprModel Generated.exportLiteralTypes v →
       readBack Generated.exportLiteralTypes
-        (refValue Generated.exportLiteralTest Generated.exportLiteralTypes v Generated.exportRefValueOrder) v
+        (refValue "exact" Generated.exportLiteralTypes v Generated.exportRefValueOrder) v
         = some (v.ty, v.payload) := by
   intro h
-  have := h { ty := "float", bases := ["object"], reprEvaluates := false } (by simp)
+  have := h { ty := "float", bases := ["object"], reprEvaluates := false, finite := false } (by simp)
+    (by simp [ReprModel])
   revert this
   decide
 
@@ -190,6 +229,16 @@ example :
        { ty := "module", bases := ["object"], sysmod := true } ] : List PyVal).map
       (fun v => refValue Generated.exportLiteralTest Generated.exportLiteralTypes v Generated.exportRefValueOrder)
     = [.literal, .pickle, .pickle, .pickle, .pickle, .importModule] := by decide
+
+/-- `1.5` is written as a literal and read back; `nan` is pickled and read back; both meet `ReprModel` -/
+example :
+    let x : PyVal := { ty := "float", bases := ["object"], payload := 15 }
+    let n : PyVal := { ty := "float", bases := ["object"], reprEvaluates := false, finite := false }
+    (refValue Generated.exportLiteralTest Generated.exportLiteralTypes x Generated.exportRefValueOrder,
+     refValue Generated.exportLiteralTest Generated.exportLiteralTypes n Generated.exportRefValueOrder)
+      = (.literal, .pickle) ∧
+    ReprModel Generated.exportLiteralTypes x ∧ ReprModel Generated.exportLiteralTypes n := by
+  refine ⟨by decide, ?_, ?_⟩ <;> simp [ReprModel]
 
 /-- with `isinstance` in place of the exact type test (seeded change C15-mutC) the enum member is
 written as a literal, and what comes back is not the value: the module does not import when the
